@@ -48,7 +48,9 @@ Definition wraps32 (x : Z) : Z := let r := x mod two32 in if r <=? max32 then r 
 
 (* a representation type is given by its width: 32 (int) or 64 (long = intmax_t) *)
 Definition in_rep (w x : Z) : bool := if w =? 32 then in32 x else in64 x.
-Definition wrap_rep (w x : Z) : Z := if w =? 32 then wraps32 x else wraps64 x.
+(* static_cast to a signed type: value-preserving when representable, modular otherwise (C++20) *)
+Definition wrap_rep (w x : Z) : Z :=
+  if w =? 32 then (if in32 x then x else wraps32 x) else (if in64 x then x else wraps64 x).
 Definition min_rep (w : Z) : Z := if w =? 32 then min32 else min64.
 
 (* signed arithmetic in a constant expression (ill-formed on overflow) and at run time (UB) *)
@@ -121,16 +123,24 @@ Definition common_m (a b : dty) : out dty :=
   do '(n, d) <- ratio_m g l;
   Val {| rw := Z.max (rw a) (rw b); pn := n; pd := d |}.
 
+(** * Staging.  Every operation below is written [fun types => let <compile-time part> in
+   fun counts => <run-time part>]: the part before the inner [fun] depends on the duration
+   types only (what the C++ compiler evaluates once per instantiation), the inner function is
+   the run-time arithmetic on tick counts.  Logically this is just a function of all its
+   arguments; the extracted OCaml evaluates the compile-time part once per partial application. *)
+
 (** * duration_cast.hpp: the four duration_cast_impl specialisations; CR = intmax_t *)
-Definition duration_cast_m (from to : dty) (c : Z) : out Z :=
-  do cf <- ratio_divide_m (pn from, pd from) (pn to, pd to);
-  let cn := fst cf in
-  let cd := snd cf in
-  do v <- (if cn =? 1 then
-             (if cd =? 1 then Val c else div_rep 64 c cd)
-           else if cd =? 1 then ck64 (c * cn)
-           else do p <- ck64 (c * cn); div_rep 64 p cd);
-  Val (wrap_rep (rw to) v).
+Definition duration_cast_m (from to : dty) : Z -> out Z :=
+  let cf := ratio_divide_m (pn from, pd from) (pn to, pd to) in
+  fun c =>
+    do cf' <- cf;
+    let cn := fst cf' in
+    let cd := snd cf' in
+    do v <- (if cn =? 1 then
+               (if cd =? 1 then Val c else div_rep 64 c cd)
+             else if cd =? 1 then ck64 (c * cn)
+             else do p <- ck64 (c * cn); div_rep 64 p cd);
+    Val (wrap_rep (rw to) v).
 
 (** * duration.hpp *)
 (* same C++ type: the defaulted copy constructor is used and ratio_divide is never instantiated *)
@@ -141,37 +151,55 @@ Definition convertible_m (from to : dty) : out bool :=
   if same_ty from to then Val true
   else do cf <- ratio_divide_m (pn from, pd from) (pn to, pd to); Val (snd cf =? 1).
 
-(* converting constructor: static_cast<Rep>(other.count() * ratio_divide<Period2, period>::num) *)
-Definition conv_m (from to : dty) (c : Z) : out Z :=
-  if same_ty from to then Val c
-  else
-    do cf <- ratio_divide_m (pn from, pd from) (pn to, pd to);
-    if negb (snd cf =? 1) then IllFormed
-    else do p <- ck64 (c * fst cf); Val (wrap_rep (rw to) p).
+(* converting constructor:
+   static_cast<Rep>(static_cast<CR>(other.count()) * ratio_divide<Period2, period>::num
+                    / ratio_divide<Period2, period>::den),  CR = intmax_t;
+   for integer representations the requires-clause forces den == 1 *)
+Definition conv_m (from to : dty) : Z -> out Z :=
+  let same := same_ty from to in
+  let cf := ratio_divide_m (pn from, pd from) (pn to, pd to) in
+  fun c =>
+    if same then Val c
+    else
+      do cf' <- cf;
+      if negb (snd cf' =? 1) then IllFormed
+      else do p <- ck64 (c * fst cf'); Val (wrap_rep (rw to) p).   (* "/ den" with den == 1 *)
 
 (* CD(lhs).count(), CD(rhs).count() for CD = the common type *)
-Definition to_common_m (a b : dty) (ca cb : Z) : out (dty * Z * Z) :=
-  do t <- common_m a b;
-  do x <- conv_m a t ca;
-  do y <- conv_m b t cb;
-  Val (t, x, y).
+Definition to_common_m (a b : dty) : Z -> Z -> out (dty * Z * Z) :=
+  let k := (do t <- common_m a b; Val (t, conv_m a t, conv_m b t)) in
+  fun ca cb =>
+    do '(t, fa, fb) <- k;
+    do x <- fa ca;
+    do y <- fb cb;
+    Val (t, x, y).
 
-Definition plus_m (a b : dty) (ca cb : Z) : out Z :=
-  do '(t, x, y) <- to_common_m a b ca cb; ck_rep (rw t) (x + y).
-Definition minus_m (a b : dty) (ca cb : Z) : out Z :=
-  do '(t, x, y) <- to_common_m a b ca cb; ck_rep (rw t) (x - y).
-Definition div_m (a b : dty) (ca cb : Z) : out Z :=
-  do '(t, x, y) <- to_common_m a b ca cb; div_rep (rw t) x y.
-Definition mod_m (a b : dty) (ca cb : Z) : out Z :=
-  do '(t, x, y) <- to_common_m a b ca cb; rem_rep (rw t) x y.
-Definition eq_m (a b : dty) (ca cb : Z) : out bool :=
-  do '(t, x, y) <- to_common_m a b ca cb; Val (x =? y).
-Definition lt_m (a b : dty) (ca cb : Z) : out bool :=
-  do '(t, x, y) <- to_common_m a b ca cb; Val (x <? y).
-Definition ne_m (a b : dty) (ca cb : Z) : out bool := do r <- eq_m a b ca cb; Val (negb r).
-Definition le_m (a b : dty) (ca cb : Z) : out bool := do r <- lt_m b a cb ca; Val (negb r).
-Definition gt_m (a b : dty) (ca cb : Z) : out bool := lt_m b a cb ca.
-Definition ge_m (a b : dty) (ca cb : Z) : out bool := do r <- lt_m a b ca cb; Val (negb r).
+Definition plus_m (a b : dty) : Z -> Z -> out Z :=
+  let tc := to_common_m a b in
+  fun ca cb => do '(t, x, y) <- tc ca cb; ck_rep (rw t) (x + y).
+Definition minus_m (a b : dty) : Z -> Z -> out Z :=
+  let tc := to_common_m a b in
+  fun ca cb => do '(t, x, y) <- tc ca cb; ck_rep (rw t) (x - y).
+Definition div_m (a b : dty) : Z -> Z -> out Z :=
+  let tc := to_common_m a b in
+  fun ca cb => do '(t, x, y) <- tc ca cb; div_rep (rw t) x y.
+Definition mod_m (a b : dty) : Z -> Z -> out Z :=
+  let tc := to_common_m a b in
+  fun ca cb => do '(t, x, y) <- tc ca cb; rem_rep (rw t) x y.
+Definition eq_m (a b : dty) : Z -> Z -> out bool :=
+  let tc := to_common_m a b in
+  fun ca cb => do '(t, x, y) <- tc ca cb; Val (x =? y).
+Definition lt_m (a b : dty) : Z -> Z -> out bool :=
+  let tc := to_common_m a b in
+  fun ca cb => do '(t, x, y) <- tc ca cb; Val (x <? y).
+Definition ne_m (a b : dty) : Z -> Z -> out bool :=
+  let f := eq_m a b in fun ca cb => do r <- f ca cb; Val (negb r).
+Definition le_m (a b : dty) : Z -> Z -> out bool :=
+  let f := lt_m b a in fun ca cb => do r <- f cb ca; Val (negb r).
+Definition gt_m (a b : dty) : Z -> Z -> out bool :=
+  let f := lt_m b a in fun ca cb => f cb ca.
+Definition ge_m (a b : dty) : Z -> Z -> out bool :=
+  let f := lt_m a b in fun ca cb => do r <- f ca cb; Val (negb r).
 
 (* members on one duration of width w *)
 Definition neg_m (w c : Z) : out Z := ck_rep w (- c).            (* operator-() *)
@@ -185,38 +213,56 @@ Definition div_assign_m (w c s : Z) : out Z := div_rep w c s.     (* /= rep *)
 Definition mod_assign_m (w c s : Z) : out Z := rem_rep w c s.     (* %= rep and %= duration *)
 
 (** * floor.hpp, ceil.hpp, round.hpp, abs.hpp *)
-Definition floor_m (from to : dty) (c : Z) : out Z :=
-  do t <- duration_cast_m from to c;
-  do g <- gt_m to from t c;                       (* t > d *)
-  if g then ck_rep (rw to) (t - 1) else Val t.
+Definition floor_m (from to : dty) : Z -> out Z :=
+  let cast := duration_cast_m from to in
+  let gt := gt_m to from in
+  fun c =>
+    do t <- cast c;
+    do g <- gt t c;                                 (* t > d *)
+    if g then ck_rep (rw to) (t - 1) else Val t.
 
-Definition ceil_m (from to : dty) (c : Z) : out Z :=
-  do t <- duration_cast_m from to c;
-  do l <- lt_m to from t c;                       (* t < d *)
-  if l then ck_rep (rw to) (t + 1) else Val t.
+Definition ceil_m (from to : dty) : Z -> out Z :=
+  let cast := duration_cast_m from to in
+  let lt := lt_m to from in
+  fun c =>
+    do t <- cast c;
+    do l <- lt t c;                                 (* t < d *)
+    if l then ck_rep (rw to) (t + 1) else Val t.
 
-Definition round_m (from to : dty) (c : Z) : out Z :=
-  do low <- floor_m from to c;
-  do t2 <- common_m to to;                        (* type of low + To{1} *)
-  do high <- plus_m to to low 1;
-  do cd1 <- common_m from to;                     (* type of dur - low *)
-  do lowDiff <- minus_m from to c low;
-  do cd2 <- common_m t2 from;                     (* type of high - dur *)
-  do highDiff <- minus_m t2 from high c;
-  do l <- lt_m cd1 cd2 lowDiff highDiff;
-  if l then Val low
-  else
-    do g <- gt_m cd1 cd2 lowDiff highDiff;
-    if g then conv_m t2 to high
-    else if Z.odd low then conv_m t2 to high else Val low.   (* low.count() & 1 *)
+(* the instantiation-time part of round: the operators it uses *)
+Definition round_ops (from to : dty) :=
+  do t2 <- common_m to to;                          (* type of low + To{1} *)
+  do cd1 <- common_m from to;                       (* type of dur - low *)
+  do cd2 <- common_m to from;                       (* type of high - dur *)
+  Val (plus_m to to, conv_m t2 to, minus_m from to, minus_m to from, lt_m cd1 cd2, gt_m cd1 cd2).
 
-Definition abs_m (t : dty) (c : Z) : out Z :=
-  do neg <- lt_m t t c 0;                         (* d < zero() *)
-  if neg then
-    do t2 <- common_m t t;
-    do r <- minus_m t t 0 c;                      (* zero() - d *)
-    conv_m t2 t r
-  else Val c.
+Definition round_m (from to : dty) : Z -> out Z :=
+  let fl := floor_m from to in
+  let ops := round_ops from to in
+  fun c =>
+    do low <- fl c;
+    do '(pl, cv, mi1, mi2, lt, gt) <- ops;
+    do h0 <- pl low 1;
+    do high <- cv h0;                               (* To const high = low + To{1} *)
+    do lowDiff <- mi1 c low;                        (* dur - low *)
+    do highDiff <- mi2 high c;                      (* high - dur *)
+    do l <- lt lowDiff highDiff;
+    if l then Val low
+    else
+      do g <- gt lowDiff highDiff;
+      if g then Val high
+      else if Z.odd low then Val high else Val low. (* low.count() & 1 ? high : low *)
+
+Definition abs_ops (t : dty) :=
+  do t2 <- common_m t t; Val (lt_m t t, minus_m t t, conv_m t2 t).
+
+Definition abs_m (t : dty) : Z -> out Z :=
+  let ops := abs_ops t in
+  fun c =>
+    do '(lt, mi, cv) <- ops;
+    do neg <- lt c 0;                               (* d < zero() *)
+    if neg then do r <- mi 0 c; cv r                (* return zero() - d *)
+    else Val c.
 
 (** * time_point.hpp, time_point_cast.hpp: thin wrappers around the stored duration *)
 Definition tp_cast_m := duration_cast_m.           (* time_point_cast<To>(tp) *)
@@ -229,8 +275,9 @@ Definition tp_sub_assign_m := sub_assign_m.
 Definition tp_inc_m := inc_m.
 Definition tp_dec_m := dec_m.
 Definition tp_eq_m := eq_m.
+Definition tp_ne_m := ne_m.                        (* rewritten from operator== *)
 Definition tp_lt_m := lt_m.
-(* unlike the duration operators, these forward to the duration operator of the same name *)
+(* these forward to the duration operator of the same name *)
 Definition tp_le_m := le_m.
 Definition tp_gt_m := gt_m.
 Definition tp_ge_m := ge_m.
